@@ -336,6 +336,15 @@ def epr_context_measure(conn, sock):
     conn.flush()
 
 
+def epr_sequential_measure(conn, sock, role):
+    """sequential keep request whose post routine measures (and thereby releases) every pair"""
+    if role == "create":
+        sock.create_keep(number=2, sequential=True, post_routine=_noop_post)
+    else:
+        sock.recv_keep(number=2, sequential=True, post_routine=_noop_post)
+    conn.flush()
+
+
 def _noop_post(conn, q, pair):
     q.H()
     q.measure()
